@@ -3,7 +3,7 @@ C19 — Rotation and transform representations convert consistently.
 Property theorems only.  Every definition in `TV.Generated.C19` is traced from the real functions of
 `trimesh/transformations.py` on every run; angles are (cos, sin) pairs with `c² + s² = 1` as a hypothesis,
 so the theorems hold for all angles (0, ±π/2, ±π and gimbal configurations included), all unit axes,
-all non-zero quaternions and all 24 Euler conventions, over any field.
+all non-zero quaternions and all 24 Euler conventions, over any field (`2 ≠ 0` for quaternion products).
 -/
 import TrimeshVerif.Proofs.Rotation
 import TrimeshVerif.Generated.C19Trace
@@ -53,19 +53,10 @@ theorem C19_quaternion_sign (t w x y z : K) : quatM t (-w) (-x) (-y) (-z) = quat
     apply M3.ext' <;> simp only [quatM, qM] <;> ring
   rw [eq, eq]; exact qM_neg t w x y z
 
-/-- `quaternion_multiply` is multiplicative on matrices: `M(q1 * q0) = M(q1) · M(q0)` -/
-theorem C19_quaternion_multiply (t1 w1 x1 y1 z1 t0 w0 x0 y0 z0 : K)
-    (h1 : t1 * (w1 ^ 2 + x1 ^ 2 + y1 ^ 2 + z1 ^ 2) = 2) (h0 : t0 * (w0 ^ 2 + x0 ^ 2 + y0 ^ 2 + z0 ^ 2) = 2) :
-    quatM (t1 * t0 / 2) (quatMul0 w1 x1 y1 z1 w0 x0 y0 z0) (quatMul1 w1 x1 y1 z1 w0 x0 y0 z0)
-        (quatMul2 w1 x1 y1 z1 w0 x0 y0 z0) (quatMul3 w1 x1 y1 z1 w0 x0 y0 z0)
-      = quatM t1 w1 x1 y1 z1 * quatM t0 w0 x0 y0 z0 := by
-  sorry
-
-/- NOTE (prover): `C19_quaternion_multiply` as stated is FALSE in characteristic 2 (there `2 = 0`, so
-   `t * |q|² = 2` no longer forces the normalisation and `t1 * t0 / 2 = 0`): over `ZMod 2` take
-   `t1 = 1, q1 = (1,1,0,0), t0 = 0, q0 = (0,0,0,0)`; the left side is the identity, the right side is
-   `[[1,0,0],[0,0,1],[0,1,0]]`.  With the extra hypothesis `(2 : K) ≠ 0` it is provable: -/
-example (h2 : (2 : K) ≠ 0) (t1 w1 x1 y1 z1 t0 w0 x0 y0 z0 : K)
+/-- `quaternion_multiply` is multiplicative on matrices: `M(q1 * q0) = M(q1) · M(q0)`
+    (in characteristic 2 the normalisation `t · |q|² = 2` degenerates — counterexample over `ZMod 2`:
+    `t1 = 1, q1 = (1,1,0,0), t0 = 0, q0 = 0` — hence the hypothesis `2 ≠ 0`, true of ℝ and ℚ) -/
+theorem C19_quaternion_multiply (h2 : (2 : K) ≠ 0) (t1 w1 x1 y1 z1 t0 w0 x0 y0 z0 : K)
     (h1 : t1 * (w1 ^ 2 + x1 ^ 2 + y1 ^ 2 + z1 ^ 2) = 2) (h0 : t0 * (w0 ^ 2 + x0 ^ 2 + y0 ^ 2 + z0 ^ 2) = 2) :
     quatM (t1 * t0 / 2) (quatMul0 w1 x1 y1 z1 w0 x0 y0 z0) (quatMul1 w1 x1 y1 z1 w0 x0 y0 z0)
         (quatMul2 w1 x1 y1 z1 w0 x0 y0 z0) (quatMul3 w1 x1 y1 z1 w0 x0 y0 z0)
